@@ -46,6 +46,40 @@ class ModelDH:
 
 DH_UF = None
 DH_UNKNOWN = None
+REAL_REG = []
+
+
+class _Rec:
+    """the real DiffieHellman object of a concrete world, remembering which peer value it was combined with"""
+
+    def __init__(self, real):
+        self._r, self.peer = real, None
+        REAL_REG.append(self)
+
+    def __getattr__(self, name):
+        return getattr(self._r, name)
+
+    def compute_secret(self, peer_public_key):
+        self.peer = bytes(peer_public_key)
+        return self._r.compute_secret(peer_public_key)
+
+
+def shared_from_wire(ke_a, ke_b):
+    """g^ir for the two public values seen on the wire (the model's commutative function of the two key pairs)"""
+    from symx import core
+    if not ModelDH.registry:
+        # concrete world: the real library's secret of the key pair that owns ke_a, combined with ke_b (or the other way round)
+        ka, kb = bytes(ke_a), bytes(ke_b)
+        for o in REAL_REG:
+            if (bytes(o.public_key), o.peer) in ((ka, kb), (kb, ka)):
+                return o.shared_secret
+        raise LookupError('no Diffie-Hellman object exchanged these two public values')
+    objs = []
+    for ke in (ke_a, ke_b):
+        k = core.SymBytes.lift(ke).key()
+        objs.append(next(o for o in ModelDH.registry if core.SymBytes.lift(o.public_key).key() == k))
+    a, b = sorted(objs, key=lambda o: o.idx)
+    return DH_UF(a.key_len, core.SymBytes.lift(a.public_key), core.SymBytes.lift(b.public_key))
 
 
 def install(mods):
@@ -61,7 +95,7 @@ def install(mods):
             eng = core.engine() if core.active() else None
             if eng is None or isinstance(eng, core.ReplayEngine) or world.ENV.urandom_hook is None:
                 # concrete world (no symbolic randomness requested): the real Diffie-Hellman
-                return real_dh.from_group(group)
+                return _Rec(real_dh.from_group(group))
             if isinstance(group, core.SymInt):
                 u = eng.unique_value(group)
                 if u is None:
@@ -76,6 +110,7 @@ def reset(env):
     """per path: fresh registry and the symbolic urandom hook"""
     from symx import core
     ModelDH.registry = []
+    del REAL_REG[:]
     counter = [0]
 
     def urandom(n):
